@@ -84,7 +84,10 @@ def _eval_batch(module, instances, idx, invariants, extra_consts, timeout_s, tag
                     # states 1..bad were evaluated (and printed) before the overflow: keep them, go on behind it
                     for t, obj in tlc.parse_prints(msg):
                         if t == tag and obj["i"] - 1 < bad:
-                            results[idx[obj["i"] - 1]] = decode(obj["e"])
+                            if obj.get("nan"):
+                                dropped.append(idx[obj["i"] - 1])
+                            else:
+                                results[idx[obj["i"] - 1]] = decode(obj["e"])
                     states += bad
                     gen += bad
                     idx = idx[bad + 1 :]
@@ -96,7 +99,10 @@ def _eval_batch(module, instances, idx, invariants, extra_consts, timeout_s, tag
             gen += res.generated
             for t, obj in res.prints:
                 if t == tag:
-                    results[idx[obj["i"] - 1]] = decode(obj["e"])
+                    if obj.get("nan"):
+                        dropped.append(idx[obj["i"] - 1])
+                    else:
+                        results[idx[obj["i"] - 1]] = decode(obj["e"])
             break
     finally:
         tlc.cleanup(wd)
